@@ -424,7 +424,9 @@ func (ri *reflectInspector) recordArgReflected(val ssa.Value, visited map[ssa.Va
 	case *ssa.ChangeType:
 		ri.recursivelyRecordUsedForReflect(val.X.Type())
 		return ri.recordArgReflected(val.X, visited)
-	case *ssa.MakeSlice, *ssa.MakeMap, *ssa.MakeChan, *ssa.Const:
+	case *ssa.MakeSlice, *ssa.MakeMap, *ssa.MakeChan, *ssa.Const, *ssa.Call:
+		// For a call, the value comes from another function;
+		// all we know about it is its static result type.
 		ri.recursivelyRecordUsedForReflect(val.Type())
 	case *ssa.Global:
 		ri.recursivelyRecordUsedForReflect(val.Type())
